@@ -143,3 +143,78 @@ Theorem C14_refuted_variable_elements :
             faithful wit_var = Some o /\ ~ C14_spec wit_var o.
 Proof. exact refuted_variable_elements. Qed.
 Print Assumptions C14_refuted_variable_elements.
+
+(* 10. outside the four classes the faithful model satisfies the property: for every literal / operator /
+       relation / membership case (any number and order of written elements) on which Hash, the
+       implementation's == and the canonical equality agree pairwise, operands are of one kind and either
+       all or none of the compared operands were written with variables *)
+Theorem C14_holds : forall c o,
+  wf_case c = true -> kf_class c = None -> faithful c = Some o -> C14_spec c o.
+Proof. exact holds. Qed.
+Print Assumptions C14_holds.
+
+(* the faithful model's hash-table hit test: equal hash streams imply the implementation's == *)
+Theorem C14_hash_equal_implies_eq : forall a b, heq a b = true -> feq a b = true.
+Proof. exact heq_feq. Qed.
+Print Assumptions C14_hash_equal_implies_eq.
+
+(* 11. comprehensions: the qualifier machinery (generators left to right, repeated variables join,
+       filters) computes, for all lists, ... the elements themselves, *)
+Theorem C14_comp_identity : forall x A, comp_values (TVar x) [QGen (PVar x) A] = Some A.
+Proof. exact comp_identity. Qed.
+Print Assumptions C14_comp_identity.
+
+(* ... the cartesian product for two generators, *)
+Theorem C14_comp_product : forall x y A B, String.eqb x y = false ->
+  comp_values (TPair (TVar x) (TVar y)) [QGen (PVar x) A; QGen (PVar y) B] =
+  Some (flat_map (fun a => map (fun b => VTup [a; b]) B) A).
+Proof. exact comp_product. Qed.
+Print Assumptions C14_comp_product.
+
+(* ... the intersection for a repeated variable, *)
+Theorem C14_comp_join : forall x A B,
+  comp_values (TVar x) [QGen (PVar x) A; QGen (PVar x) B] =
+  Some (flat_map (fun a => map (fun _ => a) (filter (veq a) B)) A) /\
+  forall v, inS v (flat_map (fun a => map (fun _ => a) (filter (veq a) B)) A) <-> inS v A /\ inS v B.
+Proof. exact (fun x A B => conj (comp_join x A B) (comp_join_is_inter A B)). Qed.
+Print Assumptions C14_comp_join.
+
+(* ... and the elements satisfying the comparison for a filter *)
+Theorem C14_comp_filter : forall x o c A,
+  (forall a, In a A -> eval_cmp o a c <> None) ->
+  comp_values (TVar x) [QGen (PVar x) A; QFilter o (TVar x) (TConst c)] =
+  Some (filter (fun a => match eval_cmp o a c with Some true => true | _ => false end) A).
+Proof. exact comp_filter_const. Qed.
+Print Assumptions C14_comp_filter.
+
+(* ---- non-vacuity ---- *)
+(* the judge on real lines: a correct union written out of order with repetitions is accepted ... *)
+Example C14_example_ok :
+  run_line "((bin union 0 0 ((s u8 2) (s u8 1) (s u8 2)) ((s u8 3) (s u8 2))) (multi (set ""u8"" 3 ((s u8 2) (s u8 1) (s u8 3)))))"
+  = "(ok set)"%string.
+Proof. vm_compute. reflexivity. Qed.
+Print Assumptions C14_example_ok.
+
+(* ... a duplicate is rejected ... *)
+Example C14_example_bad :
+  run_line "((bin union 0 0 ((s u8 2) (s u8 1) (s u8 2)) ((s u8 3) (s u8 2))) (multi (set ""u8"" 4 ((s u8 2) (s u8 1) (s u8 3) (s u8 2)))))"
+  = "(bad duplicate-elements (set-of 3))"%string.
+Proof. vm_compute. reflexivity. Qed.
+Print Assumptions C14_example_bad.
+
+(* ... and {0.0, -0.0} with two elements is recognised as the known finding, but only in that exact form *)
+Example C14_example_kf :
+  run_line "((lit 0 ((s f64 0) (s f64 9223372036854775808))) (multi (set ""f64"" 2 ((s f64 0) (s f64 9223372036854775808)))))"
+  = "(kf signed-zero)"%string /\
+  run_line "((lit 0 ((s f64 0) (s f64 9223372036854775808))) (multi (set ""f64"" 2 ((s f64 9223372036854775808) (s f64 0)))))"
+  = "(bad duplicate-elements (set-of 1))"%string.
+Proof. split; vm_compute; reflexivity. Qed.
+Print Assumptions C14_example_kf.
+
+(* the hypotheses of C14_holds are satisfiable: {1,2,1} ∪ {2,3} over u8 *)
+Example C14_example_holds :
+  let c := CBin OUnion false false [VInt "u8" 1; VInt "u8" 2; VInt "u8" 1] [VInt "u8" 2; VInt "u8" 3] in
+  wf_case c = true /\ kf_class c = None /\
+  faithful c = Some (SSet "u8" 3 [VInt "u8" 1; VInt "u8" 2; VInt "u8" 3]).
+Proof. cbv zeta. repeat split; vm_compute; reflexivity. Qed.
+Print Assumptions C14_example_holds.
